@@ -201,6 +201,16 @@ var plainAB = func() []int {
 	return out
 }()
 
+var plainAny = func() []int {
+	var out []int
+	for _, t := range world.Palette {
+		if !t.Runner && !t.Closer {
+			out = append(out, t.Idx)
+		}
+	}
+	return out
+}()
+
 func outcomesOf[T any](xs []T, f func(T) string) []string {
 	var out []string
 	for _, x := range xs {
